@@ -1468,3 +1468,179 @@ Proof.
   - exact (Src_getstate_is_state (the_world ns sr ev sh mcall h) c undef x t bases V MV CO FN PA SER).
   - apply state_lookup.
 Qed.
+
+(* ------------------------------------------------------------------ the hypotheses are satisfiable *)
+
+
+
+Definition ex_fd (n : string) (d : option pyval) : fdecl :=
+  {| fd_name := s2p n; fd_field := FAnything; fd_immutable := false; fd_default := d |}.
+
+Definition ex_c : classdef :=
+  {| c_name := s2p "A"; c_ancestors := [];
+     c_fields := [ex_fd "n" (Some (PNum (NInt 5))); ex_fd "s" None];
+     c_required := []; c_additional := true; c_ignore_none := false; c_immutable := false; c_hook := HookNone |}.
+
+(* the heap: every object answers `__name__` with its own name; otherwise a table *)
+Definition ex_table (cls : pystr) (bases : pyval) : list (pystr * list (pystr * pyval)) :=
+  [ (cls, [ (n_field_by_name, field_by_name ex_c);
+            (n_mro, PList [ref cls; ref (s2p "Structure"); ref (s2p "object")]);
+            (isinstance_attr n_StructMeta, PBool true);
+            (n_fields, PList [PStr (s2p "n"); PStr (s2p "s")]);
+            (s2p "n", fld_ref (s2p "n")); (s2p "s", fld_ref (s2p "s"));
+            (s2p "__bases__", bases) ]);
+    (s2p "Structure", [ (isinstance_attr n_StructMeta, PBool true); (n_fields, PList []) ]);
+    (fld_obj (s2p "n"), [ (s2p "_name", PStr (s2p "n")); (s2p "_default", PNum (NInt 5)) ]);
+    (fld_obj (s2p "s"), [ (s2p "_name", PStr (s2p "s")); (s2p "_default", PNone) ]);
+    (n_TypedPyDefaults, [ (s2p "defensive_copy_on_get", PBool true) ]) ].
+
+Definition ex_heap_of (cls : pystr) (bases : pyval) : heap :=
+  fun o a =>
+    if pystr_eqb a (s2p "__name__") then Some (PStr o)
+    else match alist_get (ex_table cls bases) o with
+         | Some attrs => alist_get attrs a
+         | None => None
+         end.
+
+Definition ex_heap : heap := ex_heap_of (s2p "A") (PTuple [ref (s2p "Structure")]).
+
+Definition ex_ns (n : num) : pystr :=
+  match n with
+  | NInt 1 => s2p "1" | NInt 2 => s2p "2" | NInt 5 => s2p "5" | NFlt 1 0 => s2p "1.0"
+  | _ => s2p "?"
+  end.
+Definition ex_sr (s : pystr) : pystr := s2p "'" ++ s ++ s2p "'".
+Definition ex_ev (c n : pystr) : pystr := s2p "0".
+Definition ex_sh (s : pystr) : Z := Z.of_nat (length s).
+Definition ex_mcall (o : pyval) (m : pystr) (args : list pyval) : res pyval :=
+  if pystr_eqb m (s2p "__serialize__") then match args with [v] => Ok v | _ => Raise TypeError end
+  else Raise Unmodelled.
+
+Definition ex_world_of (h : heap) : world := the_world ex_ns ex_sr ex_ev ex_sh ex_mcall h.
+Definition ex_world : world := ex_world_of ex_heap.
+
+Definition ex_a : inst :=
+  {| i_cls := s2p "A";
+     i_attrs := [(s2p "s", PStr (s2p "q")); (s2p "n", PNum (NInt 1));
+                 (s2p "extra", PList [PNum (NInt 2); PStruct (s2p "B") [(s2p "z", PSet false [PStr (s2p "w")])]])];
+     i_nones := Some [s2p "m"]; i_live := true |}.
+Definition ex_b : inst :=
+  {| i_cls := s2p "A";
+     i_attrs := [(s2p "n", PNum (NFlt 1 0)); (s2p "s", PStr (s2p "q"));
+                 (s2p "extra", PList [PNum (NInt 2); PStruct (s2p "B") [(s2p "z", PSet false [PStr (s2p "w")])]])];
+     i_nones := Some [s2p "m"]; i_live := true |}.
+
+Lemma ex_heap_plain cls bases :
+  class_field (ex_heap_of cls bases) cls n_none_fields = None ->
+  heap_plain (ex_world_of (ex_heap_of cls bases)).
+Proof.
+  intros CF cn. unfold ex_world_of, the_world. cbn [w_heap]. split; [reflexivity|]. split.
+  - unfold ex_heap_of, ex_table. cbn [pystr_eqb alist_get].
+    repeat match goal with |- context [pystr_eqb ?k cn] => destruct (pystr_eqb k cn); [vm_compute; reflexivity|] end.
+    reflexivity.
+  - unfold class_field, ex_heap_of, ex_table. cbn [pystr_eqb alist_get].
+    match goal with |- context [pystr_eqb ?k cn] => destruct (pystr_eqb k cn) eqn:E end.
+    + apply pystr_eqb_spec in E. subst cn. unfold class_field, ex_heap_of, ex_table in CF.
+      cbn [pystr_eqb alist_get] in CF. rewrite pystr_eqb_refl in CF. exact CF.
+    + repeat match goal with |- context [pystr_eqb ?k cn] => destruct (pystr_eqb k cn); [vm_compute; reflexivity|] end.
+      reflexivity.
+Qed.
+
+Lemma ex_is_field n : is_field ex_c n = true -> n = s2p "n" \/ n = s2p "s".
+Proof.
+  unfold is_field, ex_c. cbn [c_fields find_field ex_fd fd_name].
+  destruct (pystr_eqb (s2p "n") n) eqn:E1; [left; symmetry; apply pystr_eqb_spec; exact E1|].
+  destruct (pystr_eqb (s2p "s") n) eqn:E2; [right; symmetry; apply pystr_eqb_spec; exact E2|]. discriminate.
+Qed.
+
+Example ex_views :
+  class_view ex_heap ex_c false (s2p "A") /\
+  mro_view ex_world ex_c (s2p "A") [s2p "Structure"; s2p "object"] /\
+  heap_plain ex_world.
+Proof.
+  split; [|split].
+  - constructor; try (vm_compute; reflexivity).
+    + intros n F. destruct (ex_is_field n F) as [-> | ->]; vm_compute; reflexivity.
+    + intros n F. destruct (ex_is_field n F) as [-> | ->]; vm_compute; reflexivity.
+    + intros n F. destruct (ex_is_field n F) as [-> | ->]; vm_compute; reflexivity.
+    + exists (PBool true). vm_compute. reflexivity.
+  - constructor; try (vm_compute; reflexivity).
+    + intros n F. destruct (ex_is_field n F) as [-> | ->]; vm_compute; reflexivity.
+    + intros b [<- | [<- | []]]; [right; right | left]; vm_compute; reflexivity.
+  - apply ex_heap_plain. vm_compute. reflexivity.
+Qed.
+
+Example ex_side_conditions :
+  c_ok ex_c = true /\ fields_nodup ex_c = true /\
+  public_attrs ex_a = true /\ keys_ok ex_a = true /\ inst_str_ok ex_a = true /\
+  nodup_by pystr_eqb (nones_list ex_a) = true /\ alist_has (i_attrs ex_a) n_skip_validation = false /\
+  class_field ex_heap (i_cls ex_a) n_immutable = None /\
+  (forall n v, ex_mcall (fld_ref n) (s2p "__serialize__") [v] = Src_Field_serialize ex_world (fld_ref n) v).
+Proof. repeat split; vm_compute; reflexivity. Qed.
+
+(* the generated functions run: 1 == 1.0 across spellings, a nested instance, a None-marked name *)
+Example ex_eq_runs :
+  Src_Structure_eq ex_world (inst_obj ex_a None) (inst_obj ex_b None) = Ok (PBool true) /\
+  inst_eq ex_c false ex_a ex_b = true.
+Proof. split; vm_compute; reflexivity. Qed.
+
+Example ex_str_runs :
+  Src_Structure_str ex_world (inst_obj ex_a None) =
+  Ok (PStr (s2p "<Instance of A. Properties: extra = [2,<Instance of B. Properties: z = {w}>], n = 1, s = 'q', m = None>")) /\
+  inst_str ex_ns ex_sr ex_ev ex_a =
+  s2p "<Instance of A. Properties: extra = [2,<Instance of B. Properties: z = {w}>], n = 1, s = 'q', m = None>".
+Proof. split; vm_compute; reflexivity. Qed.
+
+Example ex_getstate_runs :
+  Src_Structure_getstate ex_world (inst_obj ex_a None) =
+  Ok (PDict [(PStr (s2p "n"), PNum (NInt 1)); (PStr (s2p "s"), PStr (s2p "q"))]).
+Proof. vm_compute. reflexivity. Qed.
+
+(* ------------------------------------------------------------------ where the source and the hand-written model DISAGREE *)
+
+(* 1. A class named `StructureReference_...` whose only base is Structure (what the field StructureReference(...)
+      creates) is printed as "Structure" by the source -- and by the real library -- while inst_str prints the
+      class name as it is.  [plain_name] is the side condition that excludes it. *)
+Definition ex_ref_heap : heap := ex_heap_of (s2p "StructureReference_0") (PTuple [ref (s2p "Structure")]).
+Definition ex_ref : inst :=
+  {| i_cls := s2p "StructureReference_0"; i_attrs := [(s2p "s", PStr (s2p "q")); (s2p "n", PNum (NInt 1))];
+     i_nones := Some []; i_live := true |}.
+
+Example Src_str_disagrees_on_reference_classes :
+  heap_plain (ex_world_of ex_ref_heap) /\ keys_ok ex_ref = true /\
+  Src_Structure_str (ex_world_of ex_ref_heap) (inst_obj ex_ref None) =
+    Ok (PStr (s2p "<Instance of Structure. Properties: n = 1, s = 'q'>")) /\
+  inst_str ex_ns ex_sr ex_ev ex_ref = s2p "<Instance of StructureReference_0. Properties: n = 1, s = 'q'>".
+Proof.
+  split; [apply ex_heap_plain; vm_compute; reflexivity|]. repeat split; vm_compute; reflexivity.
+Qed.
+
+(* 2. A NESTED instance whose `_none_fields` is not empty: the source (and the real library) prints `x = None`
+      inside the nested instance; the value universe's [PStruct cls attrs] carries no None-marked names, so
+      [vs] cannot.  At the Python level the nested instance is a PStruct with its whole __dict__: *)
+Example Src_str_prints_nested_none_fields :
+  Src_Structure_str ex_world
+    (PStruct (s2p "Holder")
+       [(n_none_fields, PSet false []);
+        (s2p "u", PStruct (s2p "U") [(n_none_fields, PSet false [PStr (s2p "x")]); (s2p "y", PNum (NInt 2));
+                                     (n_instantiated, PBool true)]);
+        (n_instantiated, PBool true)]) =
+  Ok (PStr (s2p "<Instance of Holder. Properties: u = <Instance of U. Properties: y = 2, x = None>>")).
+Proof. vm_compute. reflexivity. Qed.
+
+(* ------------------------------------------------------------------ assumptions *)
+
+Print Assumptions C11_src_eq.
+Print Assumptions C11_src_ne.
+Print Assumptions C11_src_field_get.
+Print Assumptions C11_src_str.
+Print Assumptions C11_src_repr.
+Print Assumptions C11_src_to_str.
+Print Assumptions C11_src_hash.
+Print Assumptions C11_src_copy.
+Print Assumptions C11_src_deepcopy.
+Print Assumptions C11_src_getstate.
+Print Assumptions Src_get_all_fields_is_fields.
+Print Assumptions ex_views.
+Print Assumptions Src_str_disagrees_on_reference_classes.
+Print Assumptions Src_str_prints_nested_none_fields.
